@@ -22,7 +22,7 @@ PROPS = {
                         "Go map iteration order: Import(map) with several new keys inserts them in an unspecified order; the harness feeds the model the order the implementation used"],
     },
     "C09": {
-        "kind": "c09",
+        "kind": "c09,std",
         "module": "Props.C09",
         "namespace": "Jl.C09",
         "extra_theorem_files": [("Proofs.CastInt", "Jl")],
@@ -40,5 +40,48 @@ PROPS = {
                          "lean/Model/IntText.lean: port of strconv.ParseInt/ParseUint base 0 (validated against strconv by correspondence)"],
         "assumptions": ["amd64: int and uint are 64 bits wide",
                         "text sources: the theorem fixes the parse call (base 0, the target's bit size, sentinel); that strconv's result is the exact value of canonical decimal text is shown for the ported parser in C12 and validated against strconv"],
+    },
+    "C10": {
+        "kind": "c10,std",
+        "module": "Props.C10",
+        "namespace": "Jl.C10",
+        "rule": ("19 casters + cast.To with each of the 18 sample types (and an unsupported one) x a universe of ~140 source values of "
+                 "~60 dynamic types: nil, the 19 supported types with several values each (boundary numbers, look-alike strings, byte "
+                 "slices of sizes 0/1/2/4/8, times incl. years < 0 and > 9999), named variants, typed nils, pointers, structs, maps, "
+                 "slices, byte arrays of every length 0-16, arrays of a named byte type, funcs, channels, complex, errors. Each call runs "
+                 "under recover(); the result's dynamic type, nil-ness and errors.Is(err, cast.ErrUnableToCast) are compared with the "
+                 "interpreter of the regenerated tables and judged by CastSpec.typedViolation. The std sub-run validates the stdlib "
+                 "ports against the stdlib. distinct = distinct (callee, source) pairs; all non-trivial"),
+        "trusted_base": [KERNEL, EXTRACT, CORR, "lean/Model/Cast.lean (interpreter, hand-written, validated by correspondence)"],
+        "assumptions": ["Go values outside the Dyn universe are abstracted to `other` (their dynamic type is all the code looks at: they hit the default branch)",
+                        "times whose Unix seconds exceed +-2^62 are outside the model (package time wraps there): the model abstains"],
+    },
+    "C11": {
+        "kind": "c11",
+        "module": "Props.C11",
+        "namespace": "Jl.C11",
+        "extra_theorem_files": [("Proofs.CastBin", "Jl"), ("Proofs.LE", "Jl.LE")],
+        "rule": ("ToBinary(v) and cast.To(type of v, those bytes) for every int8/uint8 value, every 257th (thorough: every) int16/uint16 "
+                 "value, every value within 2 of every power of two / bound in every integer type that holds it, float boundaries, "
+                 "NaN payload classes, +-0, subnormals, random 32/64-bit values; cast.To(T, bytes) for every fixed-width T and byte "
+                 "slices of every length 0-17 (zero, 0xff and random contents), every 1-byte content and every 251st (thorough: every) "
+                 "2-byte content. Judged by CastSpec.binaryViolation (little-endian image; decode is the inverse; other lengths "
+                 "rejected). distinct = distinct (callee, source); all non-trivial"),
+        "trusted_base": [KERNEL, EXTRACT, CORR, "lean/Model/LE.lean, lean/Model/Cast.lean (hand-written, validated by correspondence)"],
+        "assumptions": ["amd64: int and uint are 8 bytes"],
+    },
+    "C12": {
+        "kind": "c12,std",
+        "module": "Props.C12",
+        "namespace": "Jl.C12",
+        "extra_theorem_files": [("Proofs.IntText", "Jl.IntText")],
+        "rule": ("ToString(v)/ToNumber(v) followed by cast.To(type of v, rendering) for every int8/uint8, every 257th (thorough: every) "
+                 "int16/uint16, boundaries of all ten integer types, every float64 and float32 binade boundary and its neighbours, "
+                 "subnormals, extremes, shortest-representation corner cases, non-finite values, random bit patterns, booleans. Judged "
+                 "by CastSpec.renderViolation (plain decimal JSON number; reads back bit-identically; non-finite never marshals). The "
+                 "std sub-run validates FormatInt/ParseInt/ParseUint/ParseBool ports against strconv. distinct = distinct (via, source)"),
+        "trusted_base": [KERNEL, EXTRACT, CORR, "lean/Model/IntText.lean (port of strconv integer text, validated against strconv)",
+                         "strconv.FormatFloat/ParseFloat: NOT modelled — parameter Ext with the round-trip law as explicit hypothesis (FloatLaw); the law itself is exercised on every float case by the harness"],
+        "assumptions": ["FloatLaw: strconv.ParseFloat(strconv.FormatFloat(x,'f',-1,bits),bits) == x for finite x (documented strconv behaviour)"],
     },
 }
